@@ -261,6 +261,33 @@ func (w *lwalk) stmt(s ast.Stmt) {
 				}
 				return true
 			})
+			// count-down form: for i := n; i > 0; i-- (n bound to a read count)
+			if be, ok := st.Cond.(*ast.BinaryExpr); ok && be.Op == token.GTR && countIdx < 0 {
+				if lit, isLit := be.Y.(*ast.BasicLit); isLit && lit.Value == "0" {
+					if as, isAs := st.Init.(*ast.AssignStmt); isAs && len(as.Lhs) == 1 && len(as.Rhs) == 1 {
+						iv := w.identObj(as.Lhs[0])
+						if iv != nil && iv == w.identObj(be.X) {
+							if inc, isInc := st.Post.(*ast.IncDecStmt); isInc && inc.Tok == token.DEC && w.identObj(inc.X) == iv {
+								if obj := w.identObj(as.Rhs[0]); obj != nil {
+									if idx, ok := w.lenVars[obj]; ok {
+										countIdx = idx
+									}
+								}
+							}
+						}
+					}
+				}
+			}
+			// writer-side index loop: for i := 0; i < len(X); i++ after len(X) was written
+			if be, ok := st.Cond.(*ast.BinaryExpr); ok && be.Op == token.LSS && countIdx < 0 {
+				if ce, isCall := be.Y.(*ast.CallExpr); isCall && len(ce.Args) == 1 {
+					if id, isID := ce.Fun.(*ast.Ident); isID && id.Name == "len" {
+						if idx := len(w.out) - 1; idx >= 0 && w.out[idx].lenOf && (w.out[idx].Label == labelOf(ce.Args[0]) || w.out[idx].deferred) {
+							countIdx = idx
+						}
+					}
+				}
+			}
 			before := len(w.out)
 			w.expr(st.Cond, "")
 			if len(w.out) != before {
